@@ -314,8 +314,6 @@ def gen_C11(rng, tier):
         # the same bytes again in the same process (a second build): a trailing unknown-contig query makes the line distinct
         cases.append(build_case(gen.render(f), qs + [("nosuch2", "+", 0, 1)]))
         groups.append(group("partition", "c11_union", cases, params={"nq": len(qs)}))
-        # the stored index itself (per contig, in stored order): compared with the model only
-        groups.append(group("index-dump", "none", ["dump " + gen.src_tok(gen.render(x)) for x in (f, perm)]))
     return groups
 
 
@@ -391,7 +389,6 @@ def gen_C16(rng, tier):
             groups.append(group("conflict", "c16_conflict", [build_case(gen.render(g), qs)]))
         else:
             groups.append(group("dicts", "c16_dicts", [build_case(gen.render(f), qs)], params=file_params(f, qs)))
-            groups.append(group("index-dump", "none", ["dump " + gen.src_tok(gen.render(f))]))
     return groups
 
 
